@@ -58,9 +58,40 @@ func bevelOverVertex() cat.Named3 {
 	return cat.Named3{Name: "bevel-over-vertex", Tris: ts, Comps: 1}
 }
 
+// openAndCoincident are meshes outside the closed-manifold catalogue: surfaces with a boundary (an "ear" whose
+// boundary vertex belongs to a single face, fans, strips) and meshes in which a vertex sits exactly at the midpoint
+// of an edge of another face - the inputs on which an editor that patches the vertex index by hand meets keys it
+// forgot to delete or keys that already exist. Every mesh also comes with its faces' vertices rotated.
+func openAndCoincident() []cat.Named3 {
+	p := model3d.XYZ
+	type T = [3]model3d.Coord3D
+	base := []cat.Named3{
+		{Name: "single-triangle", Tris: []T{{p(0, 0, 0), p(2, 0, 0), p(0, 2, 0)}}},
+		{Name: "two-triangles", Tris: []T{{p(0, 0, 0), p(2, 0, 0), p(0, 2, 0)}, {p(2, 0, 0), p(2, 2, 0.5), p(0, 2, 0)}}},
+		{Name: "ear", Tris: []T{{p(0, 0, 0), p(2, 0, 0), p(1, 2, 0)}, {p(2, 0, 0), p(3, 2, 0), p(1, 2, 0)}, {p(2, 0, 0), p(4, 0, 0.5), p(3, 2, 0)}, {p(1, 2, 0), p(3, 2, 0), p(2, 4, 0)}}},
+		{Name: "open-fan", Tris: []T{{p(0, 0, 0), p(2, 0, 0), p(1, 2, 0)}, {p(0, 0, 0), p(1, 2, 0), p(-1, 2, 0.5)}, {p(0, 0, 0), p(-1, 2, 0.5), p(-2, 0, 0)}, {p(0, 0, 0), p(-2, 0, 0), p(-1, -2, 0.25)}}},
+		{Name: "strip", Tris: []T{{p(0, 0, 0), p(1, 0, 0), p(0, 1, 0)}, {p(1, 0, 0), p(1, 1, 0), p(0, 1, 0)}, {p(1, 0, 0), p(2, 0, 0.5), p(1, 1, 0)}, {p(2, 0, 0.5), p(2, 1, 0.5), p(1, 1, 0)}, {p(2, 0, 0.5), p(3, 0, 0), p(2, 1, 0.5)}}},
+		{Name: "vertex-at-edge-midpoint", Tris: []T{{p(0, 0, 0), p(2, 0, 0), p(1, 2, 0)}, {p(2, 0, 0), p(0, 0, 0), p(1, -2, 0)}, {p(1, 0, 0), p(1, 0, 3), p(1, 1, 3)}, {p(1, 0, 0), p(1, -1, 3), p(1, 0, 3)}}},
+		{Name: "t-junction", Tris: []T{{p(0, 0, 0), p(2, 0, 0), p(1, 2, 0)}, {p(0, 0, 0), p(1, -2, 0), p(1, 0, 0)}, {p(1, 0, 0), p(1, -2, 0), p(2, 0, 0)}}},
+		{Name: "tetra-with-fin", Tris: []T{{p(0, 0, 0), p(0, 2, 0), p(2, 0, 0)}, {p(0, 0, 0), p(2, 0, 0), p(0, 0, 2)}, {p(0, 0, 0), p(0, 0, 2), p(0, 2, 0)}, {p(2, 0, 0), p(0, 2, 0), p(0, 0, 2)}, {p(2, 0, 0), p(4, 0, 0), p(3, 0, 2)}}},
+	}
+	var out []cat.Named3
+	for _, b := range base {
+		for rot := 0; rot < 3; rot++ {
+			v := cat.Named3{Name: fmt.Sprintf("%s/rot%d", b.Name, rot), Comps: 1}
+			for _, t := range b.Tris {
+				v.Tris = append(v.Tris, T{t[rot], t[(rot+1)%3], t[(rot+2)%3]})
+			}
+			out = append(out, v)
+		}
+	}
+	return out
+}
+
 func editors3(r *ev.Run) {
 	meshes := cat.Closed3(!r.Thorough())
 	meshes = append(meshes, bevelOverVertex())
+	meshes = append(meshes, openAndCoincident()...)
 	type op struct {
 		name string
 		run  func(m *model3d.Mesh) *model3d.Mesh
